@@ -526,5 +526,10 @@ func getPodNetworkRequests(ctx context.Context, client client.Client, anno map[s
 		podNetworks = append(podNetworks, parsed)
 	}
 
+	if unioned.Len() == 0 {
+		// the eni of every network is created in the zone of the node
+		return nil, nil, fmt.Errorf("pod networkings have no vSwitch in a common zone")
+	}
+
 	return podNetworks, unioned.List(), nil
 }
